@@ -82,14 +82,15 @@ def burst_family(res, tier):
     from .. import program as P
     scs, metas = [], []
     for fps in (4, 5):
-        cycles = 8
+        cycles = 16
         script = [P.W("started"), P.W("idle"), P.DO("sleep", us=400000)]
         for k in range(cycles):
-            # three updates 100 ms apart (inside one frame interval of >= 200 ms), then a pause of two frame intervals
-            script += [P.DO("send", msg=P.U(100 + 10 * k)), P.DO("sleep", us=100000), P.DO("send", msg=P.U(101 + 10 * k)), P.DO("sleep", us=100000),
-                       P.DO("send", msg=P.U(102 + 10 * k)), P.DO("sleep", us=int(2.2e6 / fps))]
+            # three updates 30 ms apart (well inside one frame interval of >= 200 ms), then a pause of just over two frame intervals (so that a whole interval has passed since the last paint): the
+            # bursts drift through every phase of the ticker
+            script += [P.DO("send", msg=P.U(100 + 10 * k)), P.DO("sleep", us=30000), P.DO("send", msg=P.U(101 + 10 * k)), P.DO("sleep", us=30000),
+                       P.DO("send", msg=P.U(102 + 10 * k)), P.DO("sleep", us=int(2.15e6 / fps))]
         script += [P.DO("send", msg=P.U(999)), P.W("idle"), P.DO("quit"), P.W("returned")]
-        scs.append(P.scenario(len(scs), script, opts={"fps": fps}, writes=True, parallel_ok=True, watchdog_ms=8000))
+        scs.append(P.scenario(len(scs), script, opts={"fps": fps}, writes=True, parallel_ok=True, watchdog_ms=16000))
         metas.append({"fps": fps, "cycles": cycles})
     results, _ = P.run_scenarios("C19_burst", scs, timeout=600)
     bad = []
@@ -107,7 +108,7 @@ def burst_family(res, tier):
         interval = 1e6 / m["fps"]
         close = [(a, b) for a, b in zip(frames, frames[1:]) if b - a < 0.6 * interval]
         m["frames"], m["pairs_closer_than_0.6_interval"] = len(frames), len(close)
-        if len(close) > 2:      # (a late tick next to a punctual one can happen once or twice on a loaded machine; eight cycles give eight)
+        if len(close) > 2:      # (a late tick next to a punctual one can happen once or twice on a loaded machine; a renderer painting out of turn gives about eight in sixteen cycles)
             bad.append((m, "%d pairs of frames were painted less than 0.6 frame intervals apart (fps %d, %d bursts after pauses): %s" %
                         (len(close), m["fps"], m["cycles"], [(round((b - a) / 1000)) for a, b in close[:6]])))
     res.oblige("Spec on real Programs: bursts of updates after pauses never get two renders inside one frame interval (%d programs, 8 bursts each)" % len(scs),
